@@ -952,6 +952,10 @@ func (m *Module) AllDeclarations() (functions []Index, globals []GlobalType, mem
 		case ExternTypeGlobal:
 			globals = append(globals, imp.DescGlobal)
 		case ExternTypeMemory:
+			if memory != nil { // Imported and defined memories share one index space, which has at most one entry.
+				err = errors.New("at most one memory allowed in module")
+				return
+			}
 			memory = imp.DescMem
 		case ExternTypeTable:
 			tables = append(tables, imp.DescTable)
